@@ -90,6 +90,7 @@ fn main() {
             "C05x" => p_sentence::run_c05x(&mut ctx, from, to),
             "C05r" => p_sentence::run_c05r(&mut ctx, from, to),
             "C05h" => p_sentence::run_c05h(&mut ctx, from, to),
+            "C08f" => p_sentence::run_c08f(&mut ctx, from, to),
             w => {
                 eprintln!("unknown workload {w}");
                 std::process::exit(64);
@@ -132,7 +133,10 @@ fn main() {
             let p = build(false)?;
             // serialised twin (every feature set has its own layout: exercises C14's path per build)
             let ser = p.serialize_to_vec().map_err(|e| ("C13:serialize_failed".to_string(), J::s(format!("{e}"))))?;
-            let (q, _) = unsafe { Predictor::deserialize_from_slice_unchecked(&ser) }.map_err(|e| ("C13:deserialize_failed".to_string(), J::s(format!("{e}"))))?;
+            let (q, rest) = unsafe { Predictor::deserialize_from_slice_unchecked(&ser) }.map_err(|e| ("C13:deserialize_failed".to_string(), J::s(format!("{e}"))))?;
+            if !rest.is_empty() {
+                return Err(("C13:deserialize_leaves_bytes_in_this_build".into(), J::i(rest.len())));
+            }
             #[cfg(feature = "tag-prediction")]
             let pt = if m.tag_models.is_empty() {
                 None
@@ -140,6 +144,24 @@ fn main() {
                 let mut pt = build(true)?;
                 pt.store_tag_scores(true);
                 Some(pt)
+            };
+            // the tag-carrying predictor has its own scorer variants: serialised twin of it as well
+            #[cfg(feature = "tag-prediction")]
+            let mut ptq_bytes = vec![];
+            #[cfg(feature = "tag-prediction")]
+            let ptq = match pt.as_ref() {
+                None => None,
+                Some(pt) => {
+                    ptq_bytes = pt.serialize_to_vec().map_err(|e| ("C13:serialize_failed(tag predictor)".to_string(), J::s(format!("{e}"))))?;
+                    ptq_bytes.extend_from_slice(&[0xAB, 0xCD, 0xEF]);
+                    let (mut x, rest) =
+                        unsafe { Predictor::deserialize_from_slice_unchecked(&ptq_bytes) }.map_err(|e| ("C13:deserialize_failed(tag predictor)".to_string(), J::s(format!("{e}"))))?;
+                    if rest != [0xAB, 0xCD, 0xEF] {
+                        return Err(("C13:deserialize_remainder_differs(tag predictor)".into(), J::i(rest.len())));
+                    }
+                    x.store_tag_scores(true);
+                    Some(x)
+                }
             };
             for (ti, text) in case.texts.iter().enumerate() {
                 let refs = ref_scores(m, text);
@@ -172,11 +194,14 @@ fn main() {
                 let mut tagdig = 0u64;
                 #[cfg(feature = "tag-prediction")]
                 if let Some(pt) = pt.as_ref() {
+                    let twin = ti % 2 == 1;
+                    let pt = if twin { ptq.as_ref().unwrap() } else { pt };
+                    let which = if twin { "deserialised_predictor_" } else { "" };
                     let types = ctypes(text);
                     let mut s3 = Sentence::from_raw(to_string(text)).unwrap();
                     pt.predict(&mut s3);
                     if s3.boundary_scores() != s.boundary_scores() {
-                        return Err(("C13:tag_predictor_scores_differ_in_this_build".into(), J::s(clip(&to_string(text), 80))));
+                        return Err((format!("C13:{which}tag_predictor_scores_differ_in_this_build"), J::s(clip(&to_string(text), 80))));
                     }
                     s3.fill_tags();
                     let n_tags = m.n_tags();
@@ -191,14 +216,14 @@ fn main() {
                         cands_want.push(rt.candidates);
                     }
                     if s3.n_tags() != n_tags || tags != want {
-                        return Err(("C13:tags_differ_from_reference_in_this_build".into(), J::obj(vec![("text", J::s(clip(&to_string(text), 80))), ("expected", J::s(format!("{:?}", want))), ("observed", J::s(format!("{:?}", tags)))])));
+                        return Err((format!("C13:{which}tags_differ_from_reference_in_this_build"), J::obj(vec![("text", J::s(clip(&to_string(text), 80))), ("expected", J::s(format!("{:?}", want))), ("observed", J::s(format!("{:?}", tags)))])));
                     }
                     let cands: Vec<Vec<Vec<(String, i64)>>> = s3
                         .iter_tokens()
                         .map(|t| t.tag_candidates().into_iter().map(|c| c.into_iter().map(|(n, s)| (n.to_string(), i64::from(s))).collect()).collect())
                         .collect();
                     if cands != cands_want {
-                        return Err(("C13:tag_scores_differ_from_reference_in_this_build".into(), J::s(clip(&to_string(text), 80))));
+                        return Err((format!("C13:{which}tag_scores_differ_from_reference_in_this_build"), J::s(clip(&to_string(text), 80))));
                     }
                     tagdig = fnv(format!("{:?}{:?}", tags, cands).as_bytes());
                 }
